@@ -18,8 +18,8 @@ import (
 
 var patterns = []string{"literal", "const", "let", "let-reassigned-before", "let-reassigned-after", "if-one-branch-taken", "if-one-branch-not-taken",
 	"if-both-branches", "match-arm", "while-increment", "compound-add", "incdec", "param", "func-result", "neg-div", "neg-rem", "struct-field", "via-ref",
-	"let-shadowing-block", "reassigned-in-loop-after"}
-var accesses = []string{"read", "write", "compound-write", "read-twice", "borrow-read", "field-read", "field-write"}
+	"let-shadowing-block", "reassigned-in-loop-after", "reassigned-in-for-after", "catch-handler-not-run", "closure-sees-later-value"}
+var accesses = []string{"read", "write", "compound-write", "read-twice", "borrow-read", "field-read", "field-write", "optional-init", "arg", "return"}
 
 type spec struct {
 	pat, acc string
@@ -130,8 +130,12 @@ func build(s spec, sfx string) (*fl.Program, bool) {
 	case "let-shadowing-block":
 		// an inner block declares its own i; the access uses the outer one
 		pre = []fl.Stmt{leti(k), &fl.Block{Body: []fl.Stmt{&fl.Let{Name: "i", T: fl.I32, Init: i32(other)}, fl.P(fl.V("i"))}}}
-	case "reassigned-in-loop-after":
-		// handled below: the access sits inside a loop whose body changes i after the access
+	case "reassigned-in-loop-after", "reassigned-in-for-after", "closure-sees-later-value":
+		// handled below: the access sits inside a loop / a closure
+	case "catch-handler-not-run":
+		// the handler of a catch that is not taken assigns the index
+		p.Funcs = append(p.Funcs, &fl.Func{Name: "okr" + sfx, Ret: fl.TResult{Err: fl.Str, Ok: fl.I32}, Body: []fl.Stmt{&fl.Return{X: i32(1)}}})
+		pre = []fl.Stmt{leti(k), &fl.Let{Name: "cv", Init: &fl.Catch{X: fl.C("okr" + sfx), ErrName: "e", Handler: []fl.Stmt{&fl.Assign{LHS: fl.V("i"), RHS: i32(other)}}, Fallback: i32(0)}}, fl.P(fl.V("cv"))}
 	case "param":
 	}
 	var acc []fl.Stmt
@@ -147,12 +151,20 @@ func build(s spec, sfx string) (*fl.Program, bool) {
 		acc = []fl.Stmt{&fl.OpAssign{Op: "+=", LHS: e, RHS: fl.L(et.(fl.TInt), 5)}}
 	case "borrow-read":
 		acc = []fl.Stmt{&fl.Block{Body: []fl.Stmt{&fl.Let{Name: "rr", T: fl.TRef{Elem: et}, Init: &fl.Borrow{X: e}}, fl.P(fl.V("rr"))}}}
+	case "optional-init":
+		acc = []fl.Stmt{&fl.Let{Name: "opt", T: fl.TOpt{Elem: et}, Init: e}, &fl.Let{Name: "dflt", T: et, Init: fl.L(et.(fl.TInt), -1)}, &fl.Let{Name: "got", T: et, Init: &fl.Coalesce{X: fl.V("opt"), D: fl.V("dflt")}}, fl.P(fl.V("got"))}
+	case "arg":
+		p.Funcs = append(p.Funcs, &fl.Func{Name: "show" + sfx, Params: []fl.Param{{"v", et}}, Body: []fl.Stmt{fl.P(fl.V("v"))}})
+		acc = []fl.Stmt{&fl.ExprStmt{X: fl.C("show"+sfx, e)}}
+	case "return":
+		// handled below (the array lives in a helper that returns the element)
+		acc = []fl.Stmt{fl.P(e)}
 	case "field-read":
 		acc = []fl.Stmt{fl.P(fl.F(e, "B"))}
 	case "field-write":
 		acc = []fl.Stmt{&fl.Assign{LHS: fl.F(e, "A"), RHS: i32(99)}}
 	}
-	if isStruct && (s.acc == "read" || s.acc == "read-twice" || s.acc == "compound-write" || s.acc == "borrow-read") {
+	if isStruct && (s.acc == "read" || s.acc == "read-twice" || s.acc == "compound-write" || s.acc == "borrow-read" || s.acc == "optional-init" || s.acc == "arg" || s.acc == "return") {
 		return nil, false
 	}
 	var dump []fl.Stmt
@@ -177,6 +189,13 @@ func build(s spec, sfx string) (*fl.Program, bool) {
 		// two iterations: i is k in the first, `other` in the second
 		loop := &fl.While{Cond: fl.B("<", fl.V("t"), i32(2)), Body: append(append([]fl.Stmt{fl.P(fl.S("before"))}, acc...), &fl.Assign{LHS: fl.V("i"), RHS: i32(other)}, &fl.IncDec{LHS: fl.V("t"), Inc: true})}
 		body = append(append(append([]fl.Stmt{}, decl...), leti(k), &fl.Let{Name: "t", T: fl.I32, Init: i32(0)}, loop), dump...)
+	case "reassigned-in-for-after":
+		loop := &fl.ForRange{Var: "t", Lo: fl.V("lo"), Hi: fl.V("hi"), Body: append(append([]fl.Stmt{fl.P(fl.S("before"))}, acc...), &fl.Assign{LHS: fl.V("i"), RHS: i32(other)})}
+		body = append(append(append([]fl.Stmt{}, decl...), leti(k), &fl.Let{Name: "lo", T: fl.I32, Init: i32(0)}, &fl.Let{Name: "hi", T: fl.I32, Init: i32(2)}, loop), dump...)
+	case "closure-sees-later-value":
+		// the closure is created while i == other and called after i = k: it reads i then
+		cl := &fl.FuncLit{Body: append([]fl.Stmt{fl.P(fl.S("before"))}, acc...)}
+		body = append(append(append([]fl.Stmt{}, decl...), leti(i32(other)), &fl.Let{Name: "f", Init: cl}, &fl.Assign{LHS: fl.V("i"), RHS: k}, &fl.ExprStmt{X: &fl.Call{Fn: "f"}}), dump...)
 	default:
 		body = append(append(append(append([]fl.Stmt{}, decl...), pre...), fl.P(fl.S("before"))), acc...)
 		body = append(append(body, post...), dump...)
@@ -221,6 +240,7 @@ func Run(c *vl.Ctx) {
 	}
 	var cases []*prog.Case
 	var specs []spec
+	altWant := map[string]fl.Outcome{}
 	seq := 0
 	for _, pat := range patterns {
 		for _, acc := range accesses {
@@ -238,6 +258,20 @@ func Run(c *vl.Ctx) {
 						}
 						cases = append(cases, &prog.Case{ID: s.id(), P: p, Want: fl.Run(p)})
 						specs = append(specs, s)
+						if pat == "closure-sees-later-value" {
+							// capture semantics for a variable reassigned after the capture are not
+							// pinned: by-value capture sees the index the variable had at creation
+							other := int64(0)
+							if k == 0 {
+								other = int64(n - 1)
+							}
+							if n == 1 && k == 0 {
+								other = -1
+							}
+							if q, ok := build(spec{"let", acc, n, other, ek}, fmt.Sprintf("_%d", seq)); ok {
+								altWant[s.id()] = fl.Run(q)
+							}
+						}
 					}
 				}
 			}
@@ -291,12 +325,20 @@ func Run(c *vl.Ctx) {
 			}
 		case wantPanic:
 			// out of range on this execution: must stop with a panic after the same lines
+			if alt, ok := altWant[k.ID]; ok && o.SameBehaviour(alt) {
+				c.Outcome("agrees-with-by-value-capture")
+				break
+			}
 			if !strings.HasPrefix(o.Term, "panic:") || strings.Join(o.Lines, "\n") != strings.Join(k.Want.Lines, "\n") {
 				c.Fail(vl.Fail{Case: k.ID, Obs: fmt.Sprintf("out-of-range access did not panic cleanly: want %s got %s", prog.WantObs(k.Want), o), Files: files})
 			} else {
 				c.Outcome("panicked-as-required")
 			}
 		case !o.SameBehaviour(k.Want):
+			if alt, ok := altWant[k.ID]; ok && (o.SameBehaviour(alt) || (strings.HasPrefix(alt.Term, "panic:") && strings.HasPrefix(o.Term, "panic:"))) {
+				c.Outcome("agrees-with-by-value-capture")
+				break
+			}
 			c.Fail(vl.Fail{Case: k.ID, Obs: fmt.Sprintf("want %s got %s", prog.WantObs(k.Want), o), Files: files})
 		default:
 			c.Outcome("agrees")
